@@ -42,7 +42,7 @@ type item struct {
 	part   string // a | b | af (cfg 2 family "missed update and delete") | e (merge hook layouts) | t (tree build under faults)
 	op     string // t
 	ecases []ecase
-	prefix []int  // a: indices of the first ops
+	prefix []int // a: indices of the first ops
 	assign []int
 	cfg    int
 	shape  int
